@@ -746,9 +746,12 @@ def case_compose(case):
 
 def shard_compose(acc, shard, nshards, params):
     from mc import compose
-    n0, maxpts, deadline = params
-    core.drive(acc, "compose", case_compose, compose.cases(n0, maxpts), shard, nshards,
-               family="compose[ranks=%d,<=%d points]" % (n0, maxpts), deadline=deadline)
+    n0, maxpts, deadline = params[:3]
+    dims = params[3] if len(params) > 3 else None
+    label = "compose[ranks=%d,<=%d points]" % (n0, maxpts) if dims is None else \
+        "compose[ranks=%d,extents=%s,permutations+flattens,<=%d points]" % (n0, "x".join(map(str, dims)), maxpts)
+    core.drive(acc, "compose", case_compose, compose.cases(n0, maxpts, dims=dims), shard, nshards,
+               family=label, deadline=deadline)
 
 
 CASES = {"transform": case_transform, "lazy": case_lazy, "join": case_join, "compose": case_compose}
@@ -762,6 +765,8 @@ def run(ctx):
         ctx.shards(shard_compose, (2, 3 if q else 4, _t.time() + (60 if q else 600)))
         ctx.shards(shard_compose, (3, 1 if q else 2, _t.time() + (60 if q else 900)))
         ctx.shards(shard_compose, (4, 2 if q else 3, _t.time() + (60 if q else 900)))
+        from mc import compose as _c
+        ctx.shards(shard_compose, (3, 1 if q else 2, _t.time() + (60 if q else 900), _c.DIMS3))
 
     if q:
         tplan = [("T2(2,2)", "full", None), ("T2(2,3;-v)", "shapefmt", None), ("T2(3,2;-v)", "shapefmt", None),
